@@ -129,6 +129,9 @@ func init() {
 	props["C14"] = simProp("whole-engine runs with many short-lived connections (3..40, closes in every order, descriptor numbers re-registered immediately, canaries): inside every callback, on the loop's own task, a read-only export of that loop's registry (count, iteration, lookup of every descriptor number the run has used) must equal the harness's set of live connections of that loop; default and gc_opt (compacting matrix) builds; plus the registry driven alone through seeded histories (add/remove first,middle,last/lookup/iterate/full iterate-and-remove drain/re-registration; a few populations beyond one 65536-entry row in the thorough tier) against a plain map; non-trivial = snapshots taken and at least one removal;"+sig,
 		"registry-snapshots", "fd-number-reused")
 	props["C14"].variantsQ = []string{"default", "gc_opt"}
+	// C05: a third of the workers run the race-detector flavour (sim/vsched/race_on.go)
+	props["C05"].variantsQ = []string{"default", "poll_opt", "default+race"}
+	props["C05"].variantsT = []string{"default", "default+small", "poll_opt", "gc_opt", "default+race", "default+small+race", "poll_opt+race"}
 	// build flavour +small (3 requests per loop round, urgent-queue threshold 8, 4 iovecs per
 	// writev, 2-event lists): the thresholds of the poller and of the write path are reachable
 	for _, id := range []string{"C02", "C03", "C06"} {
@@ -247,8 +250,9 @@ func buildEngine(pc *propCfg, variants []string, scratch string) ([]build, error
 		src := repoDir
 		tags := ""
 		if v != "default" {
-			tags = strings.TrimSpace(strings.ReplaceAll(strings.ReplaceAll(strings.ReplaceAll(" "+strings.ReplaceAll(v, "+", " ")+" ", " small ", " "), " default ", " "), "  ", " "))
+			tags = strings.TrimSpace(strings.ReplaceAll(strings.ReplaceAll(strings.ReplaceAll(strings.ReplaceAll(" "+strings.ReplaceAll(v, "+", " ")+" ", " small ", " "), " race ", " "), " default ", " "), "  ", " "))
 		}
+		race := isRace(v)
 		if pc.instrumented {
 			var err error
 			if src, err = instrument(scratch, v); err != nil {
@@ -269,13 +273,23 @@ func buildEngine(pc *propCfg, variants []string, scratch string) ([]build, error
 		_ = os.WriteFile(filepath.Join(scratch, "go-"+pc.engine+"-"+v+".sum"), gs, 0o644)
 		bin := filepath.Join(scratch, pc.engine+"-"+v+".test")
 		args := []string{"test", "-c", "-modfile=" + mod, "-o", bin}
+		env := goEnv()
+		if race {
+			// the race-detector flavour: see sim/vsched/race_on.go and sim/instr/raceoverlay.go
+			ov, oerr := raceOverlay(scratch)
+			if oerr != nil {
+				return nil, fmt.Errorf("race flavour: %v", oerr)
+			}
+			args = append(args, "-race", "-overlay", ov)
+			env = append(env, "CGO_ENABLED=1")
+		}
 		if tags != "" {
 			args = append(args, "-tags", tags)
 		}
 		args = append(args, "./engines/"+pc.engine)
 		cmd := exec.Command(goBin(), args...)
 		cmd.Dir = verifDir
-		cmd.Env = goEnv()
+		cmd.Env = env
 		if b, err := cmd.CombinedOutput(); err != nil {
 			// a tree that no longer compiles only because of an injected
 			// export file (renamed variable) is rebuilt without the exports
@@ -287,7 +301,7 @@ func buildEngine(pc *propCfg, variants []string, scratch string) ([]build, error
 					return nil
 				})
 				cmd2 := exec.Command(goBin(), args...)
-				cmd2.Dir, cmd2.Env = verifDir, goEnv()
+				cmd2.Dir, cmd2.Env = verifDir, env
 				if b2, err2 := cmd2.CombinedOutput(); err2 != nil {
 					return nil, fmt.Errorf("go %s: %v\n%s", strings.Join(args, " "), err2, b2)
 				}
@@ -311,17 +325,19 @@ func instrument(scratch, variant string) (string, error) {
 		return dst, nil // already instrumented for another engine of this check
 	}
 	var tags []string
-	small := false
+	small, race := false, false
 	for _, t := range strings.Split(variant, "+") {
 		switch t {
 		case "default", "":
 		case "small":
 			small = true
+		case "race":
+			race = true
 		default:
 			tags = append(tags, t)
 		}
 	}
-	rep, err := instr.Instrument(repoDir, dst, instr.Options{Tags: tags, SmallKnobs: small, Inject: injectFiles()})
+	rep, err := instr.Instrument(repoDir, dst, instr.Options{Tags: tags, SmallKnobs: small, Race: race, Inject: injectFiles()})
 	if err != nil {
 		return "", fmt.Errorf("instrumenter: %v", err)
 	}
@@ -350,4 +366,39 @@ func injectFiles() map[string]string {
 		return nil
 	})
 	return out
+}
+
+// isRace: the variant is built with the race detector ("+race" flavour).
+func isRace(variant string) bool {
+	for _, t := range strings.Split(variant, "+") {
+		if t == "race" {
+			return true
+		}
+	}
+	return false
+}
+
+// raceOverlay writes the build overlay of the race flavour (two patched files
+// of package runtime, see sim/instr/raceoverlay.go) into the scratch directory.
+func raceOverlay(scratch string) (string, error) {
+	dir := filepath.Join(scratch, "race-runtime")
+	ov := filepath.Join(dir, "overlay.json")
+	if _, err := os.Stat(ov); err == nil {
+		return ov, nil
+	}
+	out, err := exec.Command(goBin(), "env", "GOROOT").Output()
+	if err != nil {
+		return "", err
+	}
+	return instr.RaceRuntimeOverlay(strings.TrimSpace(string(out)), dir)
+}
+
+// raceEnv: where the race detector of a worker process writes its reports.
+func raceEnv(scratch, variant string, n int) []string {
+	if !isRace(variant) {
+		return nil
+	}
+	dir := filepath.Join(scratch, fmt.Sprintf("racelog-%d", n))
+	_ = os.MkdirAll(dir, 0o755)
+	return []string{"GORACE=log_path=" + filepath.Join(dir, "r") + " halt_on_error=0"}
 }
